@@ -622,11 +622,15 @@ def to_calls(doc, rng, start_flavours=True, explicit_eq=0.5, binary=0.0, trace=N
             qtrace.append((au, aa))
 
     def op_calls(op, force):
+        # returns whether an operator call was emitted (w_wr, wave 5: recorded on the field as _op_called)
         if op is None or op == "=":
             if force or rng.random() < explicit_eq:
                 emit("op:6", False)
+                return True
+            return False
         else:
             emit("op:%d" % OP_CODE[op], False)
+            return True
 
     def value(v, in_obj, aa_after=False):
         """in_obj: the value completes a field of an object (then a key is expected next);
@@ -668,7 +672,7 @@ def to_calls(doc, rng, start_flavours=True, explicit_eq=0.5, binary=0.0, trace=N
         first = True
         for it in items:
             emit(_scalar_call(it.key, rng), False, first and first_key_aa)
-            op_calls(it.op, first and first_needs_explicit)
+            it._op_called = op_calls(it.op, first and first_needs_explicit)
             value(it.value, True)
             first = False
 
